@@ -629,7 +629,11 @@ def run_history(refA: DFA, refB: DFA, steps, want=None):
             bad = _wrong((x, y), got, want["cmp" + x])
             if bad:
                 text, g, w = bad[0]
-                return i, f"{text} answered {g[1] if g[0] == 'ok' else 'raised ' + g[1]} but the languages say {w}", text
+                rx, ry = (refA, refB) if x == "A" else (refB, refA)
+                wit = witness(rx, ry, text.split()[1])
+                return i, (f"{text} answered {g[1] if g[0] == 'ok' else 'raised ' + g[1]} but the languages say {w}"
+                           + (f" (witness word {wit!r}: {x} accepts {rx.accepts_input(wit)}, {y} accepts "
+                              f"{ry.accepts_input(wit)})" if wit is not None else "")), text
         elif q in ("isempty", "isfinite"):
             x = live[s["on"]]
             got = H.L.guarded((lambda: x.isempty()) if q == "isempty" else (lambda: x.isfinite()), H.STEP_TIMEOUT_S)
